@@ -13,6 +13,7 @@ func init() {
 	vrt.Register("C01_string_routes", StringRoutes)
 	vrt.Register("C01_trusted_routes", TrustedRoutes)
 	vrt.Register("C01_mixed", Mixed)
+	vrt.Register("C01_html_typed_helpers", HTMLTypedHelpers)
 }
 
 type holder struct {
@@ -297,4 +298,54 @@ func Mixed() {
 		vrt.Assert(decodesTo(r, p), "the string part is escaped")
 	}
 	vrt.Cover("done")
+}
+
+func bold(h template.HTML) template.HTML { return "<b>" + h + "</b>" }
+
+func boldAll(hs ...template.HTML) template.HTML {
+	out := template.HTML("")
+	for _, h := range hs {
+		out += h
+	}
+	return out
+}
+
+// a plain string never becomes trusted by being handed to a helper whose
+// parameter is typed template.HTML: the call fails or the payload stays escaped
+func HTMLTypedHelpers() {
+	p := payload()
+	ctx := baseCtx(p)
+	ctx.Set("bold", bold)
+	ctx.Set("boldAll", boldAll)
+	calls := []string{"bold(x)", "bold(st.Field)", "bold(\"\" + x)", "boldAll(x)", "boldAll(raw(\"\"), x)", "bold(idf(x))", "bold(mi[\"k\"])"}
+	c := calls[vrt.Choice(len(calls))]
+	in := defs + "[<%= " + c + " %>]"
+	vrt.Note("input", in)
+	got, err := plush.Render(in, ctx)
+	vrt.Note("got", got)
+	if err != nil {
+		vrt.Cover("rejected")
+		return
+	}
+	// accepted: then whatever of the payload is emitted must be escaped
+	for i := 0; i < len(p); i++ {
+		c := p[i]
+		if c == '<' || c == '>' || c == '\'' || c == '"' {
+			inner := got
+			if len(inner) >= 9 {
+				inner = inner[4 : len(inner)-5] // between [<b> and </b>]
+			}
+			vrt.Assert(!containsByte(inner, c), "a string passed to an HTML-typed helper parameter is not emitted verbatim")
+		}
+	}
+	vrt.Cover("accepted")
+}
+
+func containsByte(s string, c byte) bool {
+	for i := 0; i < len(s); i++ {
+		if s[i] == c {
+			return true
+		}
+	}
+	return false
 }
